@@ -641,9 +641,11 @@ def gen_P(tier):
     cfgs = [[chan('X   ', 68), chan('A   ', 73)], [chan('X   ', 73), chan('A   ', 68, 2, 2)]]
     pats = PATTERNS if tier == 'quick' else PATTERNS + [list(p) for n in (3, 4) for p in itertools.product((1, 2, 3), repeat=n)
                                                         if len(set(p[:-1])) > 1]
+    # data records of more frames than one byte counts (a logical record spans physical records: nothing bounds its frames)
+    pats = pats + [[255, 3], [256, 2], [257, 40], [300, 300, 40]]
     for pat in pats:
         n = sum(pat)
-        for cfg in cfgs:
+        for cfg in (cfgs if n < 100 else cfgs[:1]):
             for indirect in (0, 68, 73):
                 for updown in (1, 255):
                     spacing = (2, 1) if (indirect == 73 or (not indirect and cfg[0]['code'] == 73)) else (1, 2)
